@@ -58,6 +58,7 @@ def check(ctx: Ctx, ev: Evidence) -> list[Finding]:
         raise AnalysisError("NativeFilestore not found")
     ev.rule("C17-R1", "status codes returned by an operation belong to its own family", 15)
     ev.rule("C17-R2", "no effectful host call before the last precondition test; refusal paths are effect-free (or inside a try whose handler returns the refusal)", 7)
+    ev.rule("C17-R5", "a refusal code returned from an exception handler is acceptable only when the guarded host call itself fails atomically for that precondition (exclusive create, rmdir, mkdir); rename/replace overwrite silently and need an explicit precondition test", 2)
     ev.rule("C17-R3", "open modes and seek-before-write/read of the data operations", 6)
     ev.rule("C17-R4", "read_from_opened_file seeks to the offset and reads the length", 2)
     enum_members = set(prog.lib_enums.get("FilestoreResponseStatusCode", []))
@@ -121,6 +122,21 @@ def check(ctx: Ctx, ev: Evidence) -> list[Finding]:
             ev.inst("C17-R2", f"{name}: refusal {codes[0]} is effect-free" + (" (except handler)" if in_handler else ""), "ok" if ok else "violation", loc(fi, r))
             if not ok:
                 out.append(Finding("C17-R2", f"{NF}.{name} | refusal {codes[0]} after {effs[0]}", f"{name} returns the refusal {codes[0]} after performing {effs[0]}", loc(fi, r)))
+
+    ATOMIC = {"os.rmdir", "os.mkdir"}
+    for name in FAMILY:
+        fi = ci.methods.get(name)
+        for t in [n for n in ast.walk(fi.node) if isinstance(n, ast.Try)]:
+            effs = [e for _, e in _effects_in(t.body)]
+            for hnd in t.handlers:
+                codes = [c for r in ast.walk(hnd) if isinstance(r, ast.Return) for c in _codes(r)]
+                if not codes:
+                    continue
+                okh = bool(effs) and all(e in ATOMIC or e.startswith("open(") and "'x'" in e.replace('"', "'") for e in effs)
+                ev.inst("C17-R5", f"{name}: refusal {codes[0]} returned from an except handler guarding {effs}", "ok" if okh else "violation", loc(fi, hnd))
+                if not okh:
+                    out.append(Finding("C17-R5", f"{NF}.{name} | refusal {codes[0]} decided by an exception of {effs}",
+                                       f"{name} relies on {effs} raising to detect the precondition for {codes[0]}; that call does not fail (it overwrites), so the refusal never happens and the tree is changed", loc(fi, hnd)))
 
     def opens(fn: ast.FunctionDef) -> list[ast.Call]:
         return [n for n in ast.walk(fn) if isinstance(n, ast.Call) and ast.unparse(n.func) == "open"]
